@@ -30,7 +30,8 @@ const vrtPath = modPath + "/vrt"
 
 type stats struct {
 	Reads, Writes, MapOps, MapRanges, MapRangesSkipped, Clock, Host, Mutex, Atomic, Appends, Globals, SyncPoints, FSPoints int
-	Unmodelled                                                                                          []string
+	CmdExport                                                                                                              bool
+	Unmodelled                                                                                                             []string
 }
 
 type weaver struct {
@@ -864,6 +865,18 @@ func main() {
 			b.WriteString("}\n")
 			must(os.WriteFile(filepath.Join(dst, pkgDir, "zz_verif_globals.go"), b.Bytes(), 0o644))
 		}
+	}
+	// the command-line tool's packaging function, exported for the concurrency harness (two runs in one directory):
+	// internal/cmd cannot be imported from outside the module, a package next to it can. When the function is not found
+	// in its known form the package still exists and says so (only that scenario is then lost)
+	must(os.MkdirAll(filepath.Join(dst, "vrtcmd"), 0o755))
+	head := "// Code generated by verif/weave. DO NOT EDIT.\n\n// Package vrtcmd makes the command-line tool's packaging function reachable from the harness.\npackage vrtcmd\n\n"
+	if src, err := os.ReadFile(filepath.Join(dst, "internal", "cmd", "package.go")); err == nil && bytes.Contains(src, []byte("func doPackage(configPath, target, packager string) error")) {
+		must(os.WriteFile(filepath.Join(dst, "internal", "cmd", "zz_verif_export.go"), []byte("// Code generated by verif/weave. DO NOT EDIT.\n\npackage cmd\n\n// VerifDoPackage is what `nfpm package -f configPath -t target -p packager` runs.\nfunc VerifDoPackage(configPath, target, packager string) error {\n\treturn doPackage(configPath, target, packager)\n}\n"), 0o644))
+		must(os.WriteFile(filepath.Join(dst, "vrtcmd", "vrtcmd.go"), []byte(head+"import \""+modPath+"/internal/cmd\"\n\n// Available tells whether the function was found.\nconst Available = true\n\n// DoPackage is what `nfpm package -f configPath -t target -p packager` runs.\nfunc DoPackage(configPath, target, packager string) error {\n\treturn cmd.VerifDoPackage(configPath, target, packager)\n}\n"), 0o644))
+		st.CmdExport = true
+	} else {
+		must(os.WriteFile(filepath.Join(dst, "vrtcmd", "vrtcmd.go"), []byte(head+"import \"errors\"\n\n// Available tells whether the function was found.\nconst Available = false\n\n// DoPackage: internal/cmd has no func doPackage(configPath, target, packager string) error.\nfunc DoPackage(configPath, target, packager string) error {\n\treturn errors.New(\"internal/cmd.doPackage not found in its known form\")\n}\n"), 0o644))
 	}
 	sort.Strings(st.Unmodelled)
 	rep, _ := json.MarshalIndent(st, "", " ")
